@@ -402,3 +402,89 @@ print(json.dumps(out))
     out = run_native(ctx, code)
     return {'confirmed': bool(out and out.get('error')), 'input': 'OpenADAS(empty repository, missing_rates_return_null=True).%s' % call[2:],
             'observed': out, 'expected': 'a rate that is zero everywhere'}
+
+
+from .common import bounded_conversions
+BOUNDED = [bounded_conversions]
+
+
+def bounded_rates_battery(ctx):
+    """Bounded stand-in (NOT a proof) for the tabulated rate classes (their interpolators are raysect code): for every class built from random
+    positive tables - values at the grid points equal the stored table after the documented conversion (x hc/lambda for the photon
+    coefficients; sen x st / sref for the beam rates); non-positive arguments give exactly 0; outside the tabulated range a rate built
+    without extrapolation raises ValueError on EVERY call (also when the same out-of-range call is repeated, and after in-range calls);
+    with extrapolation it returns a finite value."""
+    from replaylib.native import run_native
+    n = 6 if ctx['tier'] == 'quick' else 60
+    code = '''
+import random, numpy as np, math
+from scipy.constants import Planck, speed_of_light
+from cherab.core.atomic import carbon
+from cherab.openadas.rates.atomic import IonisationRate, RecombinationRate, ThermalCXRate
+from cherab.openadas.rates.pec import ImpactExcitationPEC, RecombinationPEC, ThermalCXPEC
+from cherab.openadas.rates.radiated_power import LineRadiationPower, ContinuumPower, CXRadiationPower
+from cherab.openadas.rates.beam import BeamStoppingRate, BeamPopulationRate, BeamEmissionPEC
+rnd = random.Random(%d)
+bad = []; cases = 0
+def close(a, b): return abs(a - b) <= 1e-8 * abs(b)
+def raises(f):
+    try:
+        v = f(); return False, v
+    except ValueError:
+        return True, None
+for trial in range(%d):
+    ne = np.array(sorted(10 ** rnd.uniform(17, 21) for _ in range(4))); te = np.array(sorted(10 ** rnd.uniform(0, 4) for _ in range(5)))
+    tab = np.array([[10 ** rnd.uniform(-20, -12) for _ in te] for _ in ne]); wl = rnd.uniform(300, 900); k = Planck * speed_of_light / (wl * 1e-9)
+    d2 = {"ne": ne, "te": te, "rate": tab}
+    mk2 = [("IonisationRate", lambda ex: IonisationRate(dict(d2), extrapolate=ex), 1.0), ("RecombinationRate", lambda ex: RecombinationRate(dict(d2), extrapolate=ex), 1.0),
+           ("ThermalCXRate", lambda ex: ThermalCXRate(dict(d2), extrapolate=ex), 1.0),
+           ("ImpactExcitationPEC", lambda ex: ImpactExcitationPEC(wl, dict(d2), extrapolate=ex), k), ("RecombinationPEC", lambda ex: RecombinationPEC(wl, dict(d2), extrapolate=ex), k),
+           ("LineRadiationPower", lambda ex: LineRadiationPower(carbon, 1, dict(d2), extrapolate=ex), 1.0), ("ContinuumPower", lambda ex: ContinuumPower(carbon, 1, dict(d2), extrapolate=ex), 1.0),
+           ("CXRadiationPower", lambda ex: CXRadiationPower(carbon, 1, dict(d2), extrapolate=ex), 1.0)]
+    for name, mk, fac in mk2:
+        r = mk(False); cases += 1
+        if not all(close(r(ne[i], te[j]), tab[i, j] * fac) for i in range(len(ne)) for j in range(len(te))):
+            bad.append({"class": name, "what": "grid point differs from the stored table after conversion"}); continue
+        if r(0.0, te[1]) != 0 or r(ne[1], -1.0) != 0: bad.append({"class": name, "what": "non-positive argument does not give 0"})
+        for pt in ((ne[0] / 3, te[1]), (ne[1], te[-1] * 2), (ne[-1] * 5, te[0] / 2)):
+            r(ne[1], te[1])
+            for rep in range(3):
+                ok, v = raises(lambda: r(*pt))
+                if not ok: bad.append({"class": name, "what": "out of range without extrapolation did not raise", "call_number": rep + 1, "point": list(map(float, pt)), "returned": v}); break
+            v = mk(True)(*pt)
+            if not math.isfinite(v): bad.append({"class": name, "what": "extrapolation not finite", "point": list(map(float, pt))})
+    td = np.array(sorted(10 ** rnd.uniform(-1, 3) for _ in range(3))); tab3 = np.array([[[10 ** rnd.uniform(-20, -12) for _ in td] for _ in te] for _ in ne])
+    d3 = {"ne": ne, "te": te, "td": td, "rate": tab3}
+    r = ThermalCXPEC(wl, dict(d3), extrapolate=False); cases += 1
+    if not all(close(r(ne[i], te[j], td[m]), tab3[i, j, m] * k) for i in range(len(ne)) for j in range(len(te)) for m in range(len(td))):
+        bad.append({"class": "ThermalCXPEC", "what": "grid point differs from the stored table after conversion"})
+    for rep in range(3):
+        ok, v = raises(lambda: r(ne[1], te[1], td[-1] * 3))
+        if not ok: bad.append({"class": "ThermalCXPEC", "what": "out of range without extrapolation did not raise", "call_number": rep + 1}); break
+    e = np.array(sorted(10 ** rnd.uniform(3, 5) for _ in range(4))); nn = np.array(sorted(10 ** rnd.uniform(18, 20) for _ in range(3))); tt = np.array(sorted(10 ** rnd.uniform(1, 3.7) for _ in range(4)))
+    sen = np.array([[10 ** rnd.uniform(-14, -12) for _ in nn] for _ in e]); st = np.array([10 ** rnd.uniform(-14, -12) for _ in tt]); sref = 10 ** rnd.uniform(-14, -12)
+    db = {"e": e, "n": nn, "t": tt, "sen": sen, "st": st, "sref": sref, "eref": e[1], "nref": nn[1], "tref": tt[1]}
+    for name, mk, fac in (("BeamStoppingRate", lambda ex: BeamStoppingRate(dict(db), extrapolate=ex), 1.0), ("BeamPopulationRate", lambda ex: BeamPopulationRate(dict(db), extrapolate=ex), 1.0),
+                          ("BeamEmissionPEC", lambda ex: BeamEmissionPEC(dict(db), wl, extrapolate=ex), k)):
+        r = mk(False); cases += 1
+        if not all(close(r(e[i], nn[j], tt[m]), sen[i, j] * st[m] / sref * fac) for i in range(len(e)) for j in range(len(nn)) for m in range(len(tt))):
+            bad.append({"class": name, "what": "grid point differs from sen * st / sref"}); continue
+        if r(0.0, nn[1], tt[1]) != 0 or r(e[1], 0.0, tt[1]) != 0 or r(e[1], nn[1], -2.0) != 0: bad.append({"class": name, "what": "non-positive argument does not give 0"})
+        for pt in ((e[1], nn[1], tt[-1] * 2), (e[1], nn[1], tt[0] / 2), (e[-1] * 3, nn[1], tt[1]), (e[1], nn[0] / 4, tt[1])):
+            r(e[1], nn[1], tt[1])
+            for rep in range(3):
+                for e2 in (pt[0], pt[0]):        # e.g. an energy scan at a fixed out-of-range temperature inside try/except
+                    ok, v = raises(lambda: r(e2, pt[1], pt[2]))
+                    if not ok: bad.append({"class": name, "what": "out of range without extrapolation did not raise", "call_number": rep + 1, "point": list(map(float, pt)), "returned": v}); break
+            v = mk(True)(*pt)
+            if not math.isfinite(v): bad.append({"class": name, "what": "extrapolation not finite", "point": list(map(float, pt))})
+    if len(bad) > 6: break
+print(json.dumps({"cases": cases, "bad": bad[:6]}))
+''' % (ctx['seed'] + 7, n)
+    out = run_native(ctx, code, timeout=900)
+    return {'name': 'tabulated rate classes: grid reproduction, zero guards, range policy under repeated calls (BOUNDED stand-in, not counted as proved)',
+            'ok': bool(out) and out.get('bad') == [], 'detail': out, 'covers': ['rates'],
+            'bound': '%d random table sets for 12 rate classes, seed %d' % (n, ctx['seed'] + 7)}
+
+
+BOUNDED = [bounded_conversions, bounded_rates_battery]
